@@ -49,6 +49,7 @@ fn families(t: Tier) -> Vec<(&'static str, u64)> {
         ("program-toggles", t.n(4_000, 200_000)),
         ("history", t.n(5_000, 100_000)),
         ("training", t.n(800, 15_000)),
+        ("deep-drop", 3),
     ]
 }
 fn floors(_t: Tier) -> Vec<(&'static str, u64)> {
@@ -384,7 +385,22 @@ fn run_training(ctx: &mut Ctx, r: &mut Rng) {
     }
 }
 
+const DEEP: [usize; 3] = [2_000, 20_000, 300_000];
+
 pub fn run_case(ctx: &mut Ctx, fam: &str, k: u64, r: &mut Rng) {
+    if fam == "deep-drop" {
+        // releasing a result must work whatever the depth of the graph it holds
+        let depth = DEEP[k as usize % DEEP.len()];
+        ctx.case(&format!("deep-drop|{}", depth), true);
+        ctx.count("deep_drop_probes", 1);
+        ctx.sample("deep-drop", || format!("x = a * 1 repeated {} times on an 8 MiB stack; drop(x); Vec::from(a)", depth));
+        match deep_chain_probe(depth, "drop") {
+            Ok(None) => {}
+            Ok(Some((kind, detail))) => ctx.violation(&format!("C18|deep-drop|{}|depth={}|stack=8MiB", kind, depth), detail),
+            Err(e) => ctx.count(&format!("deep_drop_probe_unavailable({})", e.chars().take(30).collect::<String>()), 1),
+        }
+        return;
+    }
     match fam {
         "history" => run_history(ctx, r),
         "training" => run_training(ctx, r),
